@@ -414,3 +414,70 @@ pub fn gen_fault_history(rng: &mut Rng, prog: &Program, p: &GenParams, kind: u64
     }
     ops
 }
+
+/// C06: small digraphs with self-loops, several SCCs and conditional edges.
+pub fn gen_cyclic_program(rng: &mut Rng, with_fw: bool) -> Program {
+    let n_in = rng.range(1, 2) as u32;
+    let n = n_in + rng.range(2, 7) as u32;
+    let mut nodes: Vec<Node> = (0..n_in).map(|_| Node { kind: Kind::In, expr: Expr::Const(vec![]) }).collect();
+    let flags: Vec<u32> = (0..n_in).collect();
+    let all: Vec<u32> = (n_in..n).collect();
+    for i in n_in..n {
+        let any = |rng: &mut Rng| -> u32 {
+            // bias: forward reference, self, backward reference
+            match rng.below(6) {
+                0 => i,
+                _ => *rng.pick(&all),
+            }
+        };
+        let rd = |rng: &mut Rng| -> Expr {
+            match rng.below(5) {
+                0 => Expr::Const(vec![rng.below(3) as i64 + 1]),
+                1 => Expr::Read(*rng.pick(&flags)),
+                _ => Expr::Read(any(rng)),
+            }
+        };
+        let expr = match rng.below(6) {
+            0 => rd(rng),
+            1 | 2 => Expr::Add(b(rd(rng)), b(rd(rng))),
+            3 | 4 => Expr::If(b(Expr::Read(*rng.pick(&flags))), b(rd(rng)), b(rd(rng))),
+            _ => Expr::Add(b(Expr::If(b(Expr::Read(*rng.pick(&flags))), b(rd(rng)), b(Expr::Const(vec![1])))), b(rd(rng))),
+        };
+        let kind = if with_fw && rng.chance(1, 4) { Kind::Fw } else { Kind::Nm };
+        nodes.push(Node { kind, expr });
+    }
+    Program { nodes }
+}
+
+pub fn gen_cyclic_history(rng: &mut Rng, prog: &Program, concurrent: bool) -> Vec<Op> {
+    let flags = prog.of_kind(Kind::In);
+    let n = prog.len();
+    let first = flags.len() as u32;
+    let mut ops = vec![Op::Session {
+        steps: flags.iter().map(|f| SessStep::Set { node: *f, val: vec![rng.below(2) as i64] }).collect(),
+        commit: true,
+    }];
+    for _ in 0..rng.range(2, 8) {
+        match rng.below(4) {
+            0 => {
+                let f = *rng.pick(&flags);
+                ops.push(Op::Session {
+                    steps: vec![SessStep::Set { node: f, val: vec![rng.below(2) as i64] }],
+                    commit: rng.chance(4, 5),
+                });
+            }
+            1 if concurrent => {
+                let k = rng.range(2, 4);
+                ops.push(Op::Concurrent {
+                    roots: (0..k).map(|_| rng.range(u64::from(first), u64::from(n) - 1) as u32).collect(),
+                    share_tracked: rng.chance(1, 3),
+                });
+            }
+            _ => ops.push(Op::Query {
+                root: rng.range(u64::from(first), u64::from(n) - 1) as u32,
+                new_tracked: rng.chance(1, 3),
+            }),
+        }
+    }
+    ops
+}
